@@ -126,7 +126,7 @@ TEMPLATES = {
         "flow fb\n  activate fz\n  match EndB()\n\n"
         "flow fz\n  match Tick()\n  start FzAction() as $z\n  match Tock()\n",
         [],
-        ["EndA", "EndB", "Tick", "Tock", "FIN", "Tick"],
+        ["EndA", "EndB", "Tick", "Tock", "FIN", "Tick", "AGE", "AGE"],
     ),
     # an activated flow that finishes without ever waiting runs once and stays activated
     "never-waiting": (
@@ -429,6 +429,11 @@ def drive(src, pre, history, seed, static, api=False):
             sh.fed_started[uid] = _T["clock"]
             if sh.actions[uid]["stops"]:
                 sh.late_started += 1
+        elif h == "AGE":
+            # more than 5 s of (virtual) idle time: the interpreter's clean-up of long-ended instances runs at the next event
+            L["clock"].advance(6.5)
+            sh.aged = getattr(sh, "aged", 0) + 1
+            continue
         elif isinstance(h, dict):
             ev = dict(h)
         else:
@@ -454,6 +459,8 @@ def run_case(case):
         hist = ["FIN" if rng.random() < 0.35 else "E%d" % rng.randint(1, 3) for _ in range(case["hlen"])]
         if case.get("sta"):
             hist = [("STA" if rng.random() < 0.25 else h) for h in hist]
+        if rng.random() < 0.3:
+            hist = [x for h in hist for x in ((["AGE"] if rng.random() < 0.3 else []) + [h])]
         pre = []
         # flows whose body never waits (only `start …Action()` lines)
         nw = set()
@@ -503,6 +510,7 @@ def run_case(case):
         "fam_" + tname: 1,
         "action_names_with_event_word_infix": int(infix is not None),
         "driven_through_process_events": int(bool(case.get("api"))),
+        "idle_periods_longer_than_cleanup_age": getattr(sh, "aged", 0),
     }
     base["sample"]["fed"] = fed
     if sh.problems:
